@@ -22,6 +22,7 @@ var osHook OSHook
 func SetOSHook(h OSHook) { osHook = h }
 
 func before(op, path, site string) error {
+	w.ops++
 	if Active() {
 		yield(kOS, 0, siteHash(site), 0)
 	}
